@@ -110,6 +110,13 @@ def check_rt(recipe) -> list[Fail]:
                     _cmp_geom(obj.atoms, obj.coords[i], f, fails, "ens", f"frame {i}")
                     if fails:
                         break
+            if not fails and recipe.get("grow") and obj.n_atoms:
+                # the ensemble has been written (iterated) once; it GROWS by one conformer and is written again: one frame more
+                obj.append(ml.Molecule(obj[0]))
+                frames2 = ml.CartesianGeometry.loads_all_xyz(obj.dumps_xyz())
+                if len(frames2) != obj.n_conformers:
+                    return [Fail("ens:frame-count-differs:written-again-after-growing", f"{obj.n_conformers} conformers -> {len(frames2)} frames")]
+                _cmp_geom(obj.atoms, obj.coords[-1], frames2[-1], fails, "ens", "last frame after growing")
         elif kind == "Substructure":
             # a view over some atoms of a molecule, in an order of its own: what is written is the view (its atoms, their coordinates)
             parent = chem.build_molecule(r, ml.Molecule)
@@ -294,7 +301,7 @@ def strat_rt(tier):
     ensr = chem.ensemble_recipe(max_atoms=8, max_bonds=4, max_conf=5, attribs=False, mol2_safe=True).filter(lambda r: len(r["confs"]) >= 1).map(_xyzify)
     return st.one_of(
         st.fixed_dictionaries({"kind": st.sampled_from(["CartesianGeometry", "Structure", "Molecule"]), "mol": molr, "entry": st.sampled_from(["loads", "loads", "load_stream", "loads_all"]), "fmt": st.integers(0, len(FMTS) - 1), "again": st.booleans(), "blank_name": st.sampled_from([0, 0, 0, 1, 2, 3])}),
-        st.fixed_dictionaries({"kind": st.just("ConformerEnsemble"), "mol": ensr, "entry": st.sampled_from(["ens", "ens", "all_mol", "all_geom", "all_stream"]), "blank_name": st.sampled_from([0, 0, 0, 1, 2, 3]), "via": st.sampled_from([0, 0, 1, 2])}),
+        st.fixed_dictionaries({"kind": st.just("ConformerEnsemble"), "mol": ensr, "entry": st.sampled_from(["ens", "ens", "all_mol", "all_geom", "all_stream"]), "blank_name": st.sampled_from([0, 0, 0, 1, 2, 3]), "via": st.sampled_from([0, 0, 1, 2]), "grow": st.booleans()}),
         st.fixed_dictionaries({"kind": st.just("Substructure"), "mol": molr, "entry": st.just("loads"), "sub": st.lists(st.integers(0, 60), min_size=1, max_size=8)}),
     )
 
